@@ -45,6 +45,8 @@ def render_rule(p, r, cols_of=None):
       body.append('%s(%s)' % (q, a))
   for a, op, b in r['cmps']:
     body.append('%s %s %s' % (a, op, term(b)))
+  for q, args in r.get('negs') or []:
+    body.append('~%s(%s)' % (q, args_text(args, cols_of.get(q))))
   h = args_text(r['head'], p.get('cols'))
   tail = (' :- ' + ', '.join(body)) if body else ''
   if p['kind'] == 'bag':
@@ -262,7 +264,7 @@ def add_functor(r, program, main):
   by = {p['name']: p for p in program['preds']}
   closure = dependants(program)
   members = [n for n in idb_names(program) if n in by]
-  target = main if r.random() < 0.7 else r.choice(members)
+  target = r.choice([main, main] + members)
   edbs = sorted(n for n in closure[target] if by[n]['kind'] == 'edb' and not by[n].get('table'))
   if not edbs:
     return False
@@ -295,6 +297,8 @@ def dependants(program):
     s = set()
     for rule in p.get('rules', []):
       for q, _, _ in rule['atoms']:
+        s.add(q)
+      for q, _ in rule.get('negs') or []:
         s.add(q)
     direct[p['name']] = s
   closure = {}
@@ -333,16 +337,19 @@ def C(n):
   return ['c', n]
 
 
-def rule(head, atoms=(), cmps=(), aggval=None):
-  return {'head': list(head), 'atoms': [list(a) for a in atoms], 'cmps': [list(c) for c in cmps],
-          'aggval': aggval}
+def rule(head, atoms=(), cmps=(), aggval=None, negs=()):
+  out = {'head': list(head), 'atoms': [list(a) for a in atoms], 'cmps': [list(c) for c in cmps],
+         'aggval': aggval}
+  if negs:
+    out['negs'] = [list(n) for n in negs]
+  return out
 
 
 def gen_recursive(r, depth=None):
   """One recursive program around a depth; returns (program, family)."""
   d = depth if depth is not None else r.choice(DEPTHS)
   family = r.choice(['counter', 'reach', 'tc', 'cycle2', 'cycle3', 'sp', 'random', 'random',
-                     'bagpaths', 'helper', 'ring', 'ring', 'spw', 'countpaths', 'selfloop2'])
+                     'bagpaths', 'helper', 'ring', 'ring', 'spw', 'countpaths', 'selfloop2', 'winmove', 'winmove'])
   around = max(1, d + r.choice([-2, -1, 0, 0, 1, 1, 2, 3]))
   preds = []
   main = None
@@ -423,6 +430,48 @@ def gen_recursive(r, depth=None):
         rule([V('x')], [['H', [V('x')], None]], [['x', '==', C(0)]]),
         rule([V('y')], [['Dd', [V('x')], None], ['E', [V('x'), V('y')], None]])]})
     main = r.choice(['H', 'Dd'])
+  elif family == 'winmove':
+    # recursion through negation (non-monotone): the win-move game on a chain with side
+    # branches and, sometimes, a cycle (drawn positions). Two shapes: the classic one-rule Win,
+    # and Lose / "has a move to a position not known lost" referring to each other under ~
+    n = min(around + 1, 26)
+    moves = chain(r, n)
+    for _ in range(r.choice([0, 1, 2])):
+      a = r.randint(0, n)
+      moves.append([a, r.randint(0, n)])
+    if r.random() < 0.3:
+      moves.append([n, r.randint(0, n)])       # a cycle: draws
+    preds.append({'name': 'Move', 'arity': 2, 'kind': 'edb', 'rows': moves, 'rules': []})
+    shape = r.choice(['classic', 'two', 'three', 'three'])
+    if shape == 'classic':
+      preds.append({'name': 'Win', 'arity': 1, 'kind': 'distinct', 'rules': [
+          rule([V('x')], [['Move', [V('x'), V('y')], None]], negs=[['Win', [V('y')]]])]})
+      main = 'Win'
+    elif shape == 'three':
+      # Win <- Lose positively, Nwm <- ~Win, Lose <- base rule | ~Nwm: a member that is derived
+      # empty in the first generation is referred to under a negation only
+      pos = sorted({v for m_ in moves for v in m_})
+      preds.append({'name': 'Pos', 'arity': 1, 'kind': 'edb', 'rows': [[v] for v in pos], 'rules': []})
+      preds.append({'name': 'HasMove', 'arity': 1, 'kind': 'distinct', 'rules': [
+          rule([V('x')], [['Move', [V('x'), V('y')], None]])]})
+      preds.append({'name': 'Win', 'arity': 1, 'kind': 'distinct', 'rules': [
+          rule([V('x')], [['Move', [V('x'), V('y')], None], ['Lose', [V('y')], None]])]})
+      preds.append({'name': 'Nwm', 'arity': 1, 'kind': 'distinct', 'rules': [
+          rule([V('x')], [['Move', [V('x'), V('y')], None]], negs=[['Win', [V('y')]]])]})
+      preds.append({'name': 'Lose', 'arity': 1, 'kind': 'distinct', 'rules': [
+          rule([V('x')], [['Pos', [V('x')], None]], negs=[['HasMove', [V('x')]]]),
+          rule([V('x')], [['HasMove', [V('x')], None]], negs=[['Nwm', [V('x')]]])]})
+      main = r.choice(['Lose', 'Win', 'Nwm'])
+    else:
+      pos = sorted({v for m_ in moves for v in m_})
+      preds.append({'name': 'Pos', 'arity': 1, 'kind': 'edb', 'rows': [[v] for v in pos], 'rules': []})
+      preds.append({'name': 'Nwm', 'arity': 1, 'kind': 'distinct', 'rules': [
+          rule([V('x')], [['Move', [V('x'), V('y')], None]], negs=[['Lose', [V('y')]]])]})
+      preds.append({'name': 'Lose', 'arity': 1, 'kind': 'distinct', 'rules': [
+          rule([V('x')], [['Pos', [V('x')], None]], negs=[['Nwm', [V('x')]]])]})
+      preds.append({'name': 'Win', 'arity': 1, 'kind': 'distinct', 'rules': [
+          rule([V('x')], [['Move', [V('x'), V('y')], None], ['Lose', [V('y')], None]])]})
+      main = r.choice(['Lose', 'Win', 'Nwm'])
   elif family == 'spw':
     # weighted shortest paths: recursion through Min= with a value built from two variables
     n = around
@@ -511,6 +560,13 @@ def gen_recursive(r, depth=None):
     hv = [V(VARS[i]) for i in range(sp['arity'])]
     preds.append({'name': 'Cnt', 'arity': 1, 'kind': 'agg', 'op': '+=', 'rules': [
         rule([C(0)], [[src, hv, None]], aggval=C(1))]})
+  # a predicate two levels above the recursion that also reads an extensional input itself
+  outs = [p for p in preds if p['name'] == 'Out']
+  edb2 = [p for p in preds if p['kind'] == 'edb' and p['arity'] == 2 and not p.get('table')]
+  if outs and edb2 and r.random() < 0.5:
+    e = r.choice(edb2)
+    preds.append({'name': 'Top', 'arity': 1, 'kind': r.choice(['distinct', 'bag']), 'rules': [
+        rule([V('y')], [['Out', [V('x')], None], [e['name'], [V('x'), V('y')] + [V('w%d' % i) for i in range(e['arity'] - 2)], None]])]})
   # a second recursive component: stacked on the first or independent, usually left to the
   # default depth (so that depth settings of one component cannot leak into another unseen)
   second = None
@@ -537,7 +593,9 @@ def gen_recursive(r, depth=None):
   recursive = {}
   if d != 8 or r.random() < 0.3:
     ann = r.choice(members) if family in ('cycle2', 'cycle3', 'random', 'helper', 'ring', 'selfloop2') else main
-    if family not in ('cycle2', 'cycle3', 'random', 'helper', 'ring', 'selfloop2'):
+    if family == 'winmove':
+      ann = r.choice([m for m in members if m in ('Lose', 'Nwm')] + (['Win'] if 'HasMove' in members or 'Lose' not in members else []))
+    elif family not in ('cycle2', 'cycle3', 'random', 'helper', 'ring', 'selfloop2'):
       ann = [m for m in members if m in ('N', 'R', 'TC', 'D', 'W')][0]
     recursive[ann] = d
     # two annotated members in one component: the smallest annotated name decides
